@@ -133,6 +133,96 @@ def t_setitem(ex):
     ex.oblige(f"{P}.ensures.one_key_value_line_per_key_in_sorted_order", And(ok, *conds))
 
 
+def t_base_setitem(ex):
+    """cache.base.__setitem__: what reaches the layout's _setitem is the caller's entry with the eclass map serialised whenever the entry carries one
+    (empty or not), the validation stamp moved from _chf_ to the cache's own key through the cache's serialiser, every other key as given; the
+    caller's dict is not modified; a read-only cache raises ReadOnly and stores nothing; __getitem__ hands a stored _eclasses_ line to
+    reconstruct_eclasses and returns every other key as stored"""
+    import pkgcore.cache as C
+    from pkgcore.cache import errors
+    from snakeoil.mappings import ProtectedDict
+    from pyvc.sym import KRef
+    has_ecl = bool(ex.choose(2))
+    readonly = bool(ex.choose(2))
+    P = f"C27.base.__setitem__[{'eclass map' if has_ecl else 'no eclass map'}{', read-only' if readonly else ''}]"
+    it = Interp(ex, label=P)
+    Obj = KRef("Value")
+    dep, slot, ecl, chf = KStr.fresh("DEPEND"), KStr.fresh("SLOT"), Obj.fresh("eclass_map"), Obj.fresh("chf")
+    ser_ecl, ser_chf = KStr.fresh("serialised_eclass_map"), KStr.fresh("serialised_chf")
+    values = {"DEPEND": dep, "SLOT": slot, "_chf_": chf}
+    if has_ecl:
+        values["_eclasses_"] = ecl
+    given = dict(values)
+    handed = []
+    calls = []
+
+    def m_deconstruct(it_, self_, m):
+        calls.append(("deconstruct", m))
+        return ser_ecl
+
+    def m_chf(it_, v):
+        calls.append(("chf", v))
+        return ser_chf
+    it.models[C.base.deconstruct_eclasses] = m_deconstruct
+    def m_setitem(it_, self_, cpv, d):
+        from pyvc import models
+        ks = list(models.iter_concrete(it_, it_.call(models.getattr_(it_, d, "keys"), ())))
+        handed.append((cpv, {k: models.getitem(it_, d, k) for k in ks}))
+    it.models[C.base._setitem] = m_setitem
+    it.models[C.base._sync_if_needed] = lambda it_, self_, increment=False: None
+    # the eclass map may be empty (an ebuild inheriting nothing stored with the key present): its truth value is arbitrary
+    from pyvc.sym import KBool
+    nonempty = KBool.fresh("eclass_map_is_non_empty")
+    it.ref_truth = lambda it_, v: nonempty.t if v is ecl else True
+    me = SObj(C.base, {"readonly": readonly, "cleanse_keys": False, "_chf_key": "_mtime_", "_chf_serializer": Model(m_chf, "chf serializer")})
+    out = call(it, it.target(CB, "base.__setitem__"), me, "dev-util/foo-1", values)
+    ex.oblige(f"{P}.frame.callers_entry_not_modified", values == given and list(values) == list(given))
+    if readonly:
+        ex.oblige(f"{P}.raises.ReadOnly_and_stores_nothing", out.raised_cls(errors.ReadOnly) and not handed, kind="exceptional-postcondition")
+        return
+    ex.oblige(f"{P}.raises.nothing", not out.raised, kind="exceptional-postcondition")
+    if out.raised:
+        return
+    ex.oblige(f"{P}.ensures.stored_once_under_the_given_key", len(handed) == 1 and handed[0][0] == "dev-util/foo-1")
+    if len(handed) != 1:
+        return
+    d = handed[0][1]
+    want = {"DEPEND": dep, "SLOT": slot, "_mtime_": ser_chf}
+    if has_ecl:
+        want["_eclasses_"] = ser_ecl
+    ex.oblige(f"{P}.ensures.keys_are_the_entrys_with_the_stamp_renamed", set(d) == set(want))
+    for k, v in want.items():
+        ex.oblige(f"{P}.ensures.{k}_as_expected", k in d and d[k] is v)
+    ex.oblige(f"{P}.ensures.serialisers_got_the_callers_values", ("chf", chf) in calls and (("deconstruct", ecl) in calls) == has_ecl)
+
+
+def t_base_getitem(ex):
+    import pkgcore.cache as C
+    has_ecl = bool(ex.choose(2))
+    P = f"C27.base.__getitem__[{'eclass line' if has_ecl else 'no eclass line'}]"
+    it = Interp(ex, label=P)
+    dep, line = KStr.fresh("DEPEND"), KStr.fresh("eclass_line")
+    from pyvc.sym import KRef
+    rebuilt = KRef("Value").fresh("rebuilt_eclass_map")
+    stored = {"DEPEND": dep, "_mtime_": 77}
+    if has_ecl:
+        stored["_eclasses_"] = line
+    calls = []
+    it.models[C.base._getitem] = lambda it_, self_, cpv: dict(stored)
+    it.models[C.base._sync_if_needed] = lambda it_, self_, increment=False: None
+    it.models[C.base.reconstruct_eclasses] = lambda it_, self_, cpv, text: (calls.append(text), rebuilt)[1]
+    out = call(it, it.target(CB, "base.__getitem__"), SObj(C.base, {}), "dev-util/foo-1")
+    ex.oblige(f"{P}.raises.nothing", not out.raised, kind="exceptional-postcondition")
+    if out.raised:
+        return
+    d = out.value
+    ex.oblige(f"{P}.ensures.same_keys", isinstance(d, dict) and set(d) == set(stored))
+    if isinstance(d, dict):
+        ex.oblige(f"{P}.ensures.other_keys_as_stored", all(d.get(k) is v for k, v in stored.items() if k != "_eclasses_"))
+        if has_ecl:
+            ex.oblige(f"{P}.ensures.eclass_line_goes_through_reconstruct_eclasses", calls == [line] and d.get("_eclasses_") is rebuilt)
+
+
 def t_line_roundtrip(ex):
     import pkgcore.cache.flat_hash as F
     P = "C27.flat_hash._parse_data"
@@ -230,10 +320,29 @@ def enum_caches(seed):
                     store["_chf_"] = NS(mtime=t3)
                     back["_eclasses_"] = {"e1": (("eclassdir", "/repo/eclass"), ("mtime", t1)), "e2": (("eclassdir", "/other dir/eclass"), ("mtime", 77))}
                     back["_chf_"] = t3
+                # the size of the eclass map varies: both, one, none (an empty map), or no _eclasses_ key at all
+                shape = (s // 2 + (tag == "second")) % 4
+                if shape in (1, 2):
+                    for d_ in (store, back):
+                        d_["_eclasses_"] = dict(list(d_["_eclasses_"].items())[:2 - shape])
+                elif shape == 3:
+                    del store["_eclasses_"]
+                    back["_eclasses_"] = {}
+                if shape:
+                    store["INHERIT"] = back["INHERIT"] = " ".join(back["_eclasses_"])
+                    if not back["INHERIT"]:
+                        del back["INHERIT"]
                 return store, back
             cpv = rnd.choice(("dev-util/foo-1", "cat/pkg-2.0-r1"))
             store1, first = entry("first")
-            cache[cpv] = dict(store1)
+            try:
+                cache[cpv] = dict(store1)
+                cache[cpv]
+            except Exception as e:
+                cases += 1
+                if len(fails) < 4:
+                    fails.append({"model": {"layout": "md5" if md5 else "flat", "entry": str(first)}, "detail": f"storing {first} and reading it back raised {type(e).__name__}: {e}"})
+                continue
 
             def same(got, exp):
                 g = {k: v for k, v in dict(got).items() if v != ""}
@@ -273,14 +382,21 @@ def enum_caches(seed):
                 F.os = FT.os = OsProxy()
                 F.open = open_proxy
                 stopped = False
+                crashed = None
                 try:
                     cache[cpv] = dict(store2)
                 except _Stop:
                     stopped = True
+                except Exception as e:
+                    crashed = e
                 finally:
                     F.os = FT.os = real_os
                     del F.open
                 cases += 1
+                if crashed is not None:
+                    if len(fails) < 4:
+                        fails.append({"model": {"layout": "md5" if md5 else "flat", "entry": str(second)}, "detail": f"storing {second} raised {type(crashed).__name__}: {crashed}"})
+                    break
                 reader = mk()
                 try:
                     seen = reader[cpv]
@@ -301,13 +417,15 @@ def enum_caches(seed):
                 # forget the stopped attempt's leftovers? no: they stay, as after a real crash
     finally:
         shutil.rmtree(scratch, ignore_errors=True)
-    return {"name": "C27.caches.bounded_enumeration", "bound": "30 seeded caches (flat and md5-cache layout alternating): an entry with dependency strings containing '=', eclass maps with paths containing spaces, "
+    return {"name": "C27.caches.bounded_enumeration", "bound": "30 seeded caches (flat and md5-cache layout alternating): an entry with dependency strings containing '=', eclass maps of 0 / 1 / 2 eclasses (or no eclass key at all) with paths containing spaces, "
             "mtimes / md5s is stored and read back, then replaced with the store stopped before every file operation in turn (open, chown, chmod, utime, rename, remove); a fresh reader reads the entry and lists the keys", "cases": cases, "failures": fails}
 
 
 def tasks():
     return [
         Task("C27.flat_hash._setitem", t_setitem, [(FH, "database._setitem")]),
+        Task("C27.base.__setitem__", t_base_setitem, [(CB, "base.__setitem__")]),
+        Task("C27.base.__getitem__", t_base_getitem, [(CB, "base.__getitem__")]),
         Task("C27.flat_hash._parse_data", t_line_roundtrip, [(FH, "database._parse_data")]),
         Task("C27.flat_hash.keys", t_keys, [(FH, "database.keys")], bounded={"directory trees": 4, "note": "explicit listings incl. pending .update files"}, enumerate=enum_caches),
     ]
